@@ -292,6 +292,7 @@ pub fn par_explore<K: Kit>(
     logging: bool,
     splits: bool,
     all_splits: bool,
+    split_all_roots: bool,
     per_history: &(dyn Fn(&Scenario, &[u8], Result<(Rig<K>, Exec<K>), Caught>, &mut Report) + Sync),
 ) -> Report {
     shards
@@ -310,7 +311,10 @@ pub fn par_explore<K: Kit>(
                     rep.distinct.insert(h128(&key));
                 }
                 per_history(&sh.sc, seq, r, &mut rep);
-                if splits {
+                // quick tier: call boundaries for every scenario of C02 / C04 and for a quarter of the
+                // scenario roots of the others (chosen by tag hash: deterministic, spread over planners,
+                // spaces and worlds); thorough: everywhere
+                if splits && (all_splits || split_all_roots || sc_h % 4 == 0) {
                     // the same samples with one call boundary at every position
                     // quick tier: boundaries after the first and before the last sample; thorough: all
                     let ks: Vec<usize> = if sh.sc.params.pk == Pk::Prm {
